@@ -54,6 +54,7 @@ type Obs struct {
 	Resp     message.Message
 	RespRaw  []byte
 	Extra    [][]byte
+	Flood    [][]byte // answers to the unprobed copies of a repeated raw datagram (op.N > 1)
 	Alive    bool
 	NoResp   bool
 	Accepted bool
@@ -359,6 +360,27 @@ func (r *Runner) Exec(op model.Op) *Obs {
 		}
 		o.Sent = b
 		o.CmdFrom = r.logLen()
+		if op.N > 1 {
+			// N-1 copies first, unprobed; their answers (if any) are let through before the last copy is judged
+			for k := 0; k < op.N-1; k++ {
+				_ = p.P.SendRaw(b)
+				if k%16 == 15 {
+					time.Sleep(time.Millisecond)
+				}
+			}
+			p.ConnSeen = true
+			// a probe heartbeat behind the copies: the association handles its datagrams in order, so everything that
+			// arrives before the probe's answer belongs to the copies
+			_, fseq, _ := hdrSeq(b)
+			fp := p.P.Probe(fseq, 30*time.Second)
+			o.Flood = fp.Answers
+			if !fp.Alive {
+				o.Alive = false
+				o.CmdTo = r.logLen()
+				return o
+			}
+			r.settle()
+		}
 		pr := p.P.Exchange(b, 6*time.Second)
 		p.ConnSeen = true
 		o.Alive = pr.Alive
@@ -369,6 +391,21 @@ func (r *Runner) Exec(op model.Op) *Obs {
 		o.Err = fmt.Errorf("unknown op kind %q", op.Kind)
 	}
 	return o
+}
+
+// hdrSeq reads message type and sequence number of a PFCP datagram (0 when too short).
+func hdrSeq(b []byte) (uint8, uint32, bool) {
+	if len(b) < 8 {
+		return 0, 0, false
+	}
+	off := 4
+	if b[0]&1 != 0 {
+		off = 12
+	}
+	if len(b) < off+3 {
+		return b[1], 0, false
+	}
+	return b[1], uint32(b[off])<<16 | uint32(b[off+1])<<8 | uint32(b[off+2]), true
 }
 
 func hexDecode(s string) []byte {
